@@ -36,7 +36,8 @@ CLAIMED = {
         "positionalRelation joins / GenericJoin / Merge) on relations over every partition shape and both column orders, against "
         "the set-comprehension definition computed in the harness (count, membership of every expected tuple, equality); "
         "SMT-decided per path, counterexamples replayed natively.",
-        "4 left x 5 right headings over {a,b,c,d}, 1..2 (thorough 1..3) rows per side, cells in {0,1}; nest (|b|bs, |b,c|bcs, "
+        "4 left x 5 right headings over {a,b,c,d}, 1..2 (thorough 1..3) rows per side, cells in {0,1}; arrays and dictionaries "
+        "of 2..3 members as left operands of all 8 operators (GenericJoin path); nest (|b|bs, |b,c|bcs, "
         "~|a|rest, single-attribute nest, keyed and unary relations, join results with unsorted columns) through the real "
         "compiler on relations of 1..3 rows, with rel.Unnest as the inverse (the unnest syntax itself does not compile: known "
         "finding under C10); sugar-heading operands (@, @item ...) are not in the registered bound; rank is checked under C06"),
@@ -61,7 +62,7 @@ CLAIMED = {
         "of enumerations take another order (choice explored exhaustively within the bound). Both evaluations must fail alike "
         "and give Equal values (bit-identical floats; identical fu.Repr/String output for concrete numbers). A counterexample is "
         "confirmed natively by evaluating it in ten fresh processes (fresh hash seeds, fresh Go map orders) and comparing output.",
-        "33 programs over collections padded to 9..11 members (frozen keeps up to 8 in insertion order whatever the seed), x in "
+        "36 programs over collections padded to 9..11 members (frozen keeps up to 8 in insertion order whatever the seed), x in "
         "[-2,2] symbolic; float sum/mean with one arbitrary finite addend; at most 1 deviating enumeration per evaluation "
         "(2 for the float and superimposed harnesses in the thorough tier), a deviation being any permutation of <=3 members or one transposition of more; stdlib functions, --out "
         "and import order are outside; superimposed sequence items are a listed known finding"),
